@@ -193,20 +193,27 @@ def run_script(script, comp='e2e'):
     uri = 'tcp://' + ','.join('h%d:%d' % (ep, 9000 + ep) for ep in range(neps))
 
     # ---------------- observation of the caller's results
-    inner = []
+    issuing = [None]
 
     class CountingAR(AsyncResult):
+        """every set / set_exception on the result handed to the caller is a `done` event.  The caller's
+        result is the first one the dispatcher makes while DispatchMethodCall runs; results it makes later
+        for the same call (the inner one of a call dispatched when the client finishes opening) are not the
+        caller's."""
         def __init__(self):
             AsyncResult.__init__(self)
-            self.k = len(inner)
-            inner.append(self)
+            self.k = None
+            if issuing[0] is not None:
+                self.k, issuing[0] = issuing[0], None
 
         def set(self, value=None):
-            ev('done', self.k, classify(self.k, value, None), now())
+            if self.k is not None:
+                ev('done', self.k, classify(self.k, value, None), now())
             return AsyncResult.set(self, value)
 
         def set_exception(self, exception, exc_info=None):
-            ev('done', self.k, classify(self.k, None, exception), now())
+            if self.k is not None:
+                ev('done', self.k, classify(self.k, None, exception), now())
             return AsyncResult.set_exception(self, exception, exc_info)
 
     def classify(cid, value, ex):
@@ -266,7 +273,14 @@ def run_script(script, comp='e2e'):
                 ev('issue', ncalls, T * 1000, now(), not opened[0])
                 if not opened[0]:
                     tags.add('pre-open')
-                disp.DispatchMethodCall('hi', ('a%d' % ncalls,), {}, timeout=T / 1000.0)
+                issuing[0] = ncalls
+                r = disp.DispatchMethodCall('hi', ('a%d' % ncalls,), {}, timeout=T / 1000.0)
+                issuing[0] = None
+                if getattr(r, 'k', None) != ncalls:
+                    # the caller's result was not made by the dispatcher itself: observe its completion
+                    def seen(ar, cid=ncalls):
+                        ev('done', cid, classify(cid, ar.value if ar.exception is None else None, ar.exception), now())
+                    r.rawlink(seen)
                 ncalls += 1
                 rt.drain()
             elif kind == 'adv':
